@@ -14,7 +14,7 @@ CONSTANTS
   OnExcChoices = {FALSE}
   PreForceChoices = {FALSE}
   XfDecChoices = {FALSE}
-  StepOps = {"expect", "addCleanup"}
+  StepOps = {"expect", "expectok", "addCleanup"}
   AllowMulti = FALSE
   Variant = "asRequired"
   UndoOf <- MCUndoOf
